@@ -230,6 +230,35 @@ theorem runCleaners_split (b : Nat) : ∀ (c : List (Nat × Nat)),
       rw [← ih]
     · simp [ids]
 
+theorem mem_takeWhile_true {α : Type} (q : α → Bool) : ∀ (l : List α) (x : α), x ∈ l.takeWhile q → q x = true := by
+  intro l
+  induction l with
+  | nil => intro x hx; simp at hx
+  | cons a l ih =>
+    intro x hx
+    rw [List.takeWhile_cons] at hx
+    split at hx
+    · rename_i ha
+      rcases List.mem_cons.mp hx with rfl | h
+      · exact ha
+      · exact ih x h
+    · simp at hx
+
+/-- the handlers run by the (repaired) loop are exactly the leading entries whose cut-off is above
+    the new top of the choice point stack. -/
+theorem runCleaners_ran (b : Nat) : ∀ (c : List (Nat × Nat)),
+    (runCleaners b c).2 = (c.takeWhile (fun p => decide (b < p.2))).map Prod.fst
+    ∧ (runCleaners b c).1 = c.dropWhile (fun p => decide (b < p.2)) := by
+  intro c
+  induction c with
+  | nil => exact ⟨rfl, rfl⟩
+  | cons p c ih =>
+    obtain ⟨id, cutoff⟩ := p
+    simp only [runCleaners]
+    by_cases h : b < cutoff
+    · simp [h, ih.1, ih.2]
+    · simp [h]
+
 /-- `cont_pts` is ordered by strictly decreasing cut-off, and every cut-off is a live choice point. -/
 def Sorted (s : PS) : Prop :=
   s.cont.Pairwise (fun a b => b.2 < a.2) ∧ ∀ p ∈ s.cont, 1 ≤ p.2 ∧ p.2 ≤ s.b
